@@ -108,5 +108,7 @@ if __name__ == "__main__":
     p = read_payload()
     out = {"inject": [run_inject(c) for c in p.get("inject", [])],
            "profiles": [run_profile(c) for c in p.get("profiles", [])],
-           "calendar": [[m, first_month_hour(m, [2019]), last_month_hour(m, [2019]), monthdays(m, 2019)] for m in p.get("calendar", [])]}
+           "calendar": [[m, first_month_hour(m, [2019]), last_month_hour(m, [2019]), monthdays(m, 2019)] for m in p.get("calendar", [])],
+           "calendar_leap": [[m, first_month_hour(m, [2020]), last_month_hour(m, [2020]), monthdays(m, 2020)] for m in p.get("calendar", [])],
+           "calendar_multi": [first_month_hour(25, [2019, 2019, 2020]), last_month_hour(24, [2019, 2019, 2020])]}
     emit(out)
